@@ -45,7 +45,7 @@ def _run(cmd, cwd, timeout, env=None):
 
 
 _SUMMARY = re.compile(r"(\d+) states generated, (\d+) distinct states found, (\d+) states left on queue")
-_COV = re.compile(r"^<(\w+) line (\d+), col \d+ to line \d+, col \d+ of module (\w+)>: (\d+):(\d+)", re.M)
+_COV = re.compile(r"^<(\w+) line (\d+), col \d+ to line \d+, col \d+ of module (\w+)[^>\n]*>: (\d+):(\d+)", re.M)
 
 
 def parse_summary(out):
@@ -97,7 +97,7 @@ def mc(spec_path, cfg_path, workers=8, coverage=True, dump=None, timeout=1200, e
     m2 = re.search(r"Error: Action property (\w+) is violated", out)
     if m2:
         violated = "action property " + m2.group(1)
-    if "Temporal properties were violated" in out:
+    if "Temporal properties were violated" in out or re.search(r"Temporal property \w+ was violated", out):
         violated = "temporal property"
     if "Deadlock reached" in out:
         violated = "deadlock"
